@@ -13,11 +13,11 @@ var known = ev.Matcher[Case]{}
 
 const rule = "exhaustive: directory shapes (files x 0..3 statements per file, bounded per tier) x ExecuteN(0|1) x schedules of one or two faulty runs, " +
 	"each run failing the exec call at every index and/or the revision write at every index (mark-started, per-statement and deferred writes), " +
-	"followed by clean runs until ErrNoPendingFiles; random: up to 5 files x 5 statements, up to 3 faulty runs. " +
+	"followed by clean runs until ErrNoPendingFiles; directories of 3-6 files with every set of 1-3 checkpoint files (a fresh history starts at the last one, nothing before it may run or be recorded) x every single fault; random: up to 5 files x 5 statements, up to 3 faulty runs. " +
 	"Oracle = invariants over the interleaved exec/write trace of a recording driver and a recording revision store. " +
 	"non-trivial = at least one injected fault actually fired; distinct key = (shape, n, fault schedule)"
 
-func key(c Case) string { return fmt.Sprintf("%v|%d|%v", c.Shape, c.N, c.Runs) }
+func key(c Case) string { return fmt.Sprintf("%v|%d|%v|%v", c.Shape, c.N, c.Runs, c.Ckpt) }
 
 func shapes(maxFiles, maxStmts int) [][]int {
 	var out [][]int
@@ -69,7 +69,15 @@ func genCase(t *rapid.T) Case {
 			Write: rapid.IntRange(-1, total+2*len(shape)).Draw(t, "write"),
 		})
 	}
-	return Case{Shape: shape, Runs: runs, N: rapid.IntRange(0, 2).Draw(t, "n")}
+	c := Case{Shape: shape, Runs: runs, N: rapid.IntRange(0, 2).Draw(t, "n")}
+	if rapid.IntRange(0, 2).Draw(t, "withckpt") == 0 {
+		for f, n := range shape {
+			if n > 0 && rapid.IntRange(0, 2).Draw(t, "ckpt") == 0 {
+				c.Ckpt = append(c.Ckpt, f)
+			}
+		}
+	}
+	return c
 }
 
 func TestCheck(t *testing.T) {
@@ -81,6 +89,9 @@ func TestCheck(t *testing.T) {
 		col.Class(cls)
 		if out.Dups > 0 {
 			col.Class("with-justified-repeat")
+		}
+		if len(c.Ckpt) > 0 {
+			col.Class(fmt.Sprintf("checkpoints=%d", len(c.Ckpt)))
 		}
 		if out.StmtFaultsFired+out.WriteFaultsFired > 0 {
 			col.NonTrivial(key(c))
@@ -118,6 +129,37 @@ func TestCheck(t *testing.T) {
 						if !ev.Each(col, "exhaustive-2-faults", Case{Shape: sh, Runs: []Fault{f1, f2}, N: n}, check, known) {
 							return
 						}
+					}
+				}
+			}
+		}
+	}
+	// directories with checkpoint files: 3-6 files x 2 statements, every set of 1-3 checkpoints, every single fault
+	// (over the statements and writes of the files that take part) followed by clean runs
+	for files := 3; files <= 6; files++ {
+		sh := make([]int, files)
+		for k := range sh {
+			sh[k] = 2
+		}
+		for mask := 1; mask < 1<<files; mask++ {
+			var ck []int
+			for k := 0; k < files; k++ {
+				if mask&(1<<k) != 0 {
+					ck = append(ck, k)
+				}
+			}
+			if len(ck) > 3 {
+				continue
+			}
+			active := sh[ck[len(ck)-1]:]
+			for n := 0; n <= 1; n++ {
+				for _, f1 := range faults(active) {
+					i++
+					if !col.Mine(i) {
+						continue
+					}
+					if !ev.Each(col, "exhaustive-checkpoints-1-fault", Case{Shape: sh, Runs: []Fault{f1}, N: n, Ckpt: ck}, check, known) {
+						return
 					}
 				}
 			}
